@@ -73,6 +73,27 @@ func coveredSweep(b *types.Block) []chain.Mutation {
 	return out
 }
 
+// setupActions: one block that puts a v1 and a v2 contract into the state (where the era allows).
+func setupActions() []chain.Action {
+	return []chain.Action{
+		chain.Seq("setup(v1+v2 contracts)", chain.V1Form(1, 2, 100), chain.V2Form(1, 2, 100)),
+		chain.Seq("setup(v1 contract)", chain.V1Form(1, 2, 100)),
+		chain.Seq("setup(v2 contract)", chain.V2Form(1, 2, 100)),
+	}
+}
+
+// menuQuick: the quick tier spends its first non-empty block on the setup, so that its second one can be ANY action of
+// the menu, including everything that needs an existing contract (revision, renewal, proof, expiration).
+func menuQuick(w *chain.World) []chain.Action {
+	if len(w.Ref.Live(chain.KFC))+len(w.Ref.Live(chain.KV2FC)) == 0 {
+		return setupActions()
+	}
+	return menu(w)
+}
+
+// menuAll resolves the action names of both tiers (replay).
+func menuAll(w *chain.World) []chain.Action { return append(setupActions(), menu(w)...) }
+
 // extremes enumerates structural mutations: everything the generic walker produces plus extreme values for
 // integers and currencies, extreme proof lengths, nil pointers / interfaces and deep / wide policies.
 func extremes(ptr any) []chain.Mutation {
@@ -496,7 +517,7 @@ func resealBlock(cs consensus.State, b *types.Block) {
 
 // Run is the validation half of C10.
 func Run(c *vf.Ctx) {
-	c.Set("validation_rule", "at every accepted block of a small union-alphabet DFS on every network family: every single structural mutation of the block and of its supplement (reflection walk: every field +-1 / byte flips / list drop, dup, swap, empty; integers and currencies set to 0, 1, 2^63, 2^64-1, 2^128-1, the unassigned-leaf sentinel; proofs resized to 0/63/64/65 hashes; out-of-range indices appended to every index list; pointers and interfaces set to nil; wrong / empty resolution types; policies nil, nested 31/32/33/200 deep, 255/256/1024/1025 wide; for every v1 signature the covered fields replaced by {one index list: [k]} for each of the ten lists and every k up to one past the transaction's longest list) is fed - as is and re-sealed (payout, commitment, nonce recomputed) - to ValidateBlock, ValidateOrphan, ValidateHeader, ValidateTransaction, ValidateV2Transaction, ValidateTransactionElements and (v2 blocks: the block is outlined and rebuilt with gateway.V2BlockOutline.Complete, as a relaying node does before it can validate) under recover; accepted mutants are applied and reverted; for a subset of block shapes (quick: 10 per network, thorough: all) additionally every PAIR of value-setting mutations on different leaves (at most 80 - thorough 120 - per block, evenly thinned); plus histories that contain a contract with an extreme file size (2^64-1, 2^64-63.., 2^63, ...; v1 and v2), followed at every height by storage proofs of several lengths, revisions and expirations for it")
+	c.Set("validation_rule", "at every accepted block of a small union-alphabet DFS on every network family (quick: a setup block forming a v1 and a v2 contract, then every single action (mixed network: every ordered pair) of the alphabet at every height; thorough: all ordered tuples of <=2 actions, two non-empty blocks): every single structural mutation of the block and of its supplement (reflection walk: every field +-1 / byte flips / list drop, dup, swap, empty; integers and currencies set to 0, 1, 2^63, 2^64-1, 2^128-1, the unassigned-leaf sentinel; proofs resized to 0/63/64/65 hashes; out-of-range indices appended to every index list; pointers and interfaces set to nil; wrong / empty resolution types; policies nil, nested 31/32/33/200 deep, 255/256/1024/1025 wide; for every v1 signature the covered fields replaced by {one index list: [k]} for each of the ten lists and every k up to one past the transaction's longest list) is fed - as is and re-sealed (payout, commitment, nonce recomputed) - to ValidateBlock, ValidateOrphan, ValidateHeader, ValidateTransaction, ValidateV2Transaction, ValidateTransactionElements and (v2 blocks: the block is outlined and rebuilt with gateway.V2BlockOutline.Complete, as a relaying node does before it can validate) under recover; accepted mutants are applied and reverted; for a subset of block shapes (quick: 10 per network, thorough: all) additionally every PAIR of value-setting mutations on different leaves (at most 80 - thorough 120 - per block, evenly thinned); plus histories that contain a contract with an extreme file size (2^64-1, 2^64-63.., 2^63, ...; v1 and v2), followed at every height by storage proofs of several lengths, revisions and expirations for it")
 	nets := []string{"mixed", "v1-eras", "v2-only", "v2-eph5"}
 	for _, n := range nets {
 		if c.Expired() {
@@ -505,8 +526,11 @@ func Run(c *vf.Ctx) {
 		sp := chain.Spec(n)
 		m := &chain.Model{Name: "union", Spec: sp, Menu: menu, Opt: chain.Options{},
 			H: vf.Pick[uint64](c, 7, 9), D: vf.Pick(c, 1, 2), K: vf.Pick(c, 2, 2), R: 0}
-		if c.Quick() && n != "mixed" {
-			m.K = 1 // quick: two-action blocks on the mixed network only (it has v1 and v2 eras)
+		if c.Quick() {
+			m.Menu, m.D, m.K = menuQuick, 2, 1
+			if n == "mixed" {
+				m.K = 2 // two-action blocks on the network that has both transaction versions
+			}
 		}
 		if sp.Name == "mixed" {
 			m.SkipStart = 3
@@ -617,7 +641,7 @@ func Replay(c *vf.Ctx, cs Case) {
 	}
 	tc := chain.TraceCase{Model: "union", Network: cs.Network, Seed: cs.Seed, Trace: cs.Trace}
 	raw := mustJSON(tc)
-	w := chain.ReplayTraceWorld(c, raw, func(string) func(w *chain.World) []chain.Action { return menu }, "C10", chain.Options{})
+	w := chain.ReplayTraceWorld(c, raw, func(string) func(w *chain.World) []chain.Action { return menuAll }, "C10", chain.Options{})
 	if w == nil || len(w.Hist) < 2 {
 		return
 	}
@@ -625,7 +649,7 @@ func Replay(c *vf.Ctx, cs Case) {
 	prev := *w
 	prev.CS = a.PrevCS
 	prev.Times = w.Times[:len(w.Times)-1]
-	x := chain.NewExplorer(c, &chain.Model{Name: "union", Spec: chain.Spec(cs.Network), Menu: menu}, "C10")
+	x := chain.NewExplorer(c, &chain.Model{Name: "union", Spec: chain.Spec(cs.Network), Menu: menuAll}, "C10")
 	if parts := strings.Split(cs.Path, " & "); cs.Target == "block" && len(parts) == 2 {
 		b := deepCopyBlock(a.B)
 		var pair []chain.Mutation
